@@ -99,6 +99,13 @@ func c10RowsKEM() []*kit.Row {
 			if len(tid) > 5 && tid[:5] == "hpke." && (m == "Decapsulate" || m == "AuthDecapsulate") && tid != "hpke.hybridKEM" {
 				c = []string{"hpke.dhKemBase." + m}
 			}
+			if tid == "kem/hybrid.scheme" { // the classical half is an unexported scheme entered through the hybrid
+				if ki.name == "P256Kyber768Draft00" {
+					c = append(c, "kem/hybrid.cScheme."+m)
+				} else {
+					c = append(c, "kem/hybrid.xScheme."+m)
+				}
+			}
 			if tid == "hpke.genericNoAuthKEM" { // thin wrapper: the methods are xwing's, promoted
 				c = []string{"kem/xwing.scheme." + m}
 			}
